@@ -68,9 +68,14 @@ def geom_of(shape: Rec):
     if isinstance(d, PathData):
         if len(d.cmds) == 1 and d.cmds[0][0] == "G":
             return d.cmds[0][1][0]
-        return GeomTok("path", repr(d.cmds))
+        g = GeomTok("path", repr(d.cmds))
+        g.cmds = list(d.cmds)
+        return g
     if d is not None and not isinstance(d, PathData):
-        return GeomTok("path", repr(d))
+        g = GeomTok("path", repr(d))
+        if d == "":
+            g.cmds = []
+        return g
     return GeomTok("shape", shape.cls.name, tuple(sorted((k, repr(v)) for k, v in shape.f.items()
                                                           if k in ("x", "y", "width", "height", "rx", "ry", "cx", "cy", "r", "x1", "y1", "x2", "y2", "points"))))
 
@@ -146,11 +151,21 @@ def install_machine(it: Interp, trace: Optional[Trace] = None, area="symbolic", 
 
     def generic(c):
         # symbolic coordinates stand for generic reals: not near a subpath start, not integral, not percentages
+        if getattr(c, "op", None) == "not" and len(c.args) == 1:
+            inner = generic(c.args[0])
+            return None if inner is None else (not inner)
         if is_snap_cond(c):
             return False
         r = repr(c)
         if "is_integer(" in r or r.endswith("endswith '%'"):
             return False
+        if getattr(c, "op", None) == "isfloat":
+            return True  # symbolic attribute values are parsed with float()
+        if getattr(c, "op", None) == "==" and len(c.args) == 2:
+            from sa.sym import is_num, to_rf
+            a, b = c.args
+            if is_num(a) and is_num(b) and (to_rf(a).is_const() != to_rf(b).is_const()):
+                return False  # a generic real is not the particular constant it is compared with
         return None
 
     it.auto_decide = generic
@@ -170,6 +185,50 @@ def install_machine(it: Interp, trace: Optional[Trace] = None, area="symbolic", 
     if not interpret_as_cmd_seq:
         it.hooks[("svg_types", "SVGShape.as_cmd_seq")] = lambda i, a, k: GeomTok("seq", geom_of(a[0]))
     it.hooks[("svg_meta", "_LinkedDefault")] = lambda i, a, k: Linked(a[0])
+
+    # a symbolic number printed into an attribute stays that number (re-parsing a printed float gives it back)
+    ntos_clo = closure_of(it.repo, "svg_meta", "ntos")
+
+    def ntos(i, a, k):
+        from sa.sym import simplify_num
+        v = simplify_num(a[0]) if isinstance(a[0], RF) else a[0]
+        if isinstance(v, RF):
+            return NumAttr(v)
+        return i.call_closure(ntos_clo, a, k)
+
+    it.hooks[("svg_meta", "ntos")] = ntos
+
+    # path rewrites applied to geometry that came from the engine: keep them as terms
+    def opaque_rewrite(name, kind):
+        clo = method_of(it.repo, "svg_types", "SVGPath", name)
+
+        def hook(i, a, k):
+            selfv = a[0]
+            d = selfv.f.get("d")
+            if not (isinstance(d, PathData) and d.cmds and all(c == "G" for c, _ in d.cmds)):
+                return i.call_closure(clo, a, k)
+            params = [p.arg for p in clo.node.args.args][1:]
+            bound = dict(zip(params, a[1:]))
+            bound.update(k)
+            inplace = bool(bound.pop("inplace", False))
+            target = selfv if inplace else i.deepcopy(selfv)
+            extra = tuple(bound[p] for p in params if p in bound)
+            if kind == "round":
+                # numeric fields are rounded by the real SVGShape.round_floats; the path data becomes round(g, ndigits)
+                base = i.find_method(ClassRef("svg_types", "SVGShape"), name)
+                if base:
+                    m, cd, fnode = base
+                    from sa.sym import Closure
+                    target = i.call_closure(Closure(m, fnode, None, f"SVGShape.{name}"), [selfv] + list(a[1:]), k)
+            target.f["d"] = PathData([("G", (GeomTok(kind, *(g for _, (g,) in d.cmds), *extra),))])
+            return target
+        it.hooks[("svg_types", f"SVGPath.{name}")] = hook
+
+    for nm, kind in (("absolute", "absolute"), ("absolute_moveto", "absolute"), ("relative", "relative"), ("explicit_lines", "explicit-lines"),
+                     ("expand_shorthand", "expand-shorthand"), ("arcs_to_cubics", "arcs-to-cubics"), ("move", "move"),
+                     ("remove_empty_subpaths", "nonempty-subpaths"), ("round_floats", "round"), ("round_multiple", "round-multiple")):
+        if it.find_method(ClassRef("svg_types", "SVGPath"), nm):
+            opaque_rewrite(nm, kind)
     P = "svg_pathops"
     it.hooks[(P, "transform")] = lambda i, a, k: GeomTok("xf", a[0], a[1])
     it.hooks[(P, "union")] = lambda i, a, k: GeomTok("union", tuple(i.iterate(a[0])), tuple(i.iterate(a[1])))
@@ -180,6 +239,13 @@ def install_machine(it: Interp, trace: Optional[Trace] = None, area="symbolic", 
     it.hooks[(P, "bounding_box")] = lambda i, a, k: tuple(RF.sym(f"bb{n}<{a[0]!r}>") for n in ("x1", "y1", "x2", "y2"))
 
     def path_area(i, a, k):
+        src = a[0]
+        while isinstance(src, GeomTok) and src.term[0] == "seq":
+            src = src.term[1]
+        if isinstance(src, GeomTok) and src.term[0] == "path" and all(c in ("M", "m") for c, _ in getattr(src, "cmds", [("?", ())])):
+            return 0  # a path that only moves the pen encloses nothing
+        if callable(area):
+            return area(a[0])
         if area == "symbolic":
             return RF.sym(f"area_{abs(hash(repr(a[0]))) % 9973}")
         return area
@@ -200,10 +266,13 @@ def make_svg(root: El, elements=None):
     return SvgOf(root)
 
 
-def run(repo: Repo, cls_method: str, build: Callable[[], tuple], setup_extra: Optional[Callable[[Interp], None]] = None,
+def run(repo: Repo, cls_method, build: Callable[[], tuple], setup_extra: Optional[Callable[[Interp], None]] = None,
         max_paths=64, module="svg", **mk) -> List[Outcome]:
-    """Interpret `Class.method` (or a module function when there is no dot) with arguments from build()."""
-    if "." in cls_method:
+    """Interpret `Class.method` (or a module function when there is no dot) with arguments from build().
+    `cls_method` may also be a python callable body(it, args, kwargs) that drives several calls itself."""
+    if callable(cls_method):
+        fn = PyCallable(cls_method)
+    elif "." in cls_method:
         c, m = cls_method.split(".", 1)
         fn = method_of(repo, module, c, m)
     else:
